@@ -25,6 +25,7 @@ theorem payload_injective {h h' : Bytes} {r r' i i' : Nat}
 
 /-- Full-strength target: a validator whose key signed only the votes of a protocol-following history (at most one
 hash per vote KIND and (round, index)) is never convicted, whatever evidence is assembled.
+(The protocol even allows TWO next-index votes per (round, index), so the real class of honest signers is larger still.)
 FALSE of the code that exists (F-C05b, see `honest_never_slashed_counterexample`): kept as a statement. -/
 def honest_never_slashed_statement : Prop :=
   ∀ (σ : Type) (env : Env σ) (st : St) (seen : List Addr) (e : Ev σ) (k : Key) (votes : List Vote),
@@ -189,6 +190,31 @@ theorem once_per_block (env : Env σ) (st : St) (evs : List (Ev σ)) :
     (penalisedOf (processAll env st [] evs).verdicts).Nodup ∧ (affectedOf (processAll env st [] evs).verdicts).Nodup := by
   have h := (processAll_nodup env evs st []).1
   exact ⟨h, List.Nodup.sublist (affectedOf_sublist _) h⟩
+
+/-- Exactly once across blocks: whoever a block of height `h ≥ 1` penalises is convicted by an evidence of round
+`h - 1` of that block's list.  So an equivocation of round r can be punished only in THE block of height r + 1 of a
+chain (heights are unique along a chain), and there at most once (`once_per_block`) — in whatever encoding, under
+whatever claimed vote kind or look-back index the evidence is offered again later. -/
+theorem punished_only_in_next_block (cfg : Cfg) (chain : Chain) (verify : Key → Bytes → σ → Bool) (h : Nat) (hh : 1 ≤ h)
+    (st : St) (seen : List Addr) (evs : List (Ev σ)) (a : Addr)
+    (ha : a ∈ penalisedOf (processAll (blockEnv cfg chain verify h) st seen evs).verdicts) :
+    ∃ e ∈ evs, e.round + 1 = h := by
+  obtain ⟨e, he, st', seen', signer, k, v, hacc, _⟩ := processAll_penalised_accepts _ evs st seen a ha
+  refine ⟨e, he, ?_⟩
+  have := hacc.round
+  simp only [blockEnv] at this
+  omega
+
+/-- two blocks that convict on evidence of one round have the same height -/
+theorem one_block_per_round (cfg : Cfg) (chain : Chain) (verify : Key → Bytes → σ → Bool) (h1 h2 : Nat) (hh1 : 1 ≤ h1) (hh2 : 1 ≤ h2)
+    {st1 st2 : St} {seen1 seen2 : List Addr} {e1 e2 : Ev σ} {s1 s2 : LbEntry} {k1 k2 : Key} {v1 v2 : Val}
+    (a1 : Accepts (blockEnv cfg chain verify h1) st1 seen1 e1 s1 k1 v1)
+    (a2 : Accepts (blockEnv cfg chain verify h2) st2 seen2 e2 s2 k2 v2)
+    (hr : e1.round = e2.round) : h1 = h2 := by
+  have r1 := a1.round
+  have r2 := a2.round
+  simp only [blockEnv] at r1 r2
+  omega
 
 /-! ## 4. The penalty -/
 
